@@ -371,3 +371,117 @@ pub fn serial_lt(a: u32, b: u32) -> bool {
 pub fn serial_le(a: u32, b: u32) -> bool {
     a == b || serial_lt(a, b)
 }
+
+// ---------------------------------------------------------------------------
+// rigs: a real client endpoint wired to a scripted server peer
+
+use crate::simnet::{self, PipeCfg, PipeCtl};
+use fe2o3_amqp::connection::ConnectionHandle;
+use fe2o3_amqp::session::SessionHandle;
+use fe2o3_amqp::{Connection, Session};
+
+#[derive(Clone, Debug)]
+pub struct RigCfg {
+    pub pipe: PipeCfg,
+    pub choices: Vec<u8>,
+    /// max-frame-size the peer advertises in its open
+    pub peer_mfs: u32,
+    pub ep_mfs: u32,
+    pub ep_next_outgoing_id: u32,
+    pub ep_incoming_window: u32,
+    pub ep_outgoing_window: u32,
+    pub peer_next_outgoing_id: u32,
+    pub peer_incoming_window: u32,
+    pub peer_outgoing_window: u32,
+    pub peer_channel: u16,
+    pub conn_buf: usize,
+    pub sess_buf: usize,
+}
+
+impl Default for RigCfg {
+    fn default() -> Self {
+        RigCfg {
+            pipe: PipeCfg { cap: 1 << 22, ..PipeCfg::default() },
+            choices: vec![],
+            peer_mfs: 4096,
+            ep_mfs: 65536,
+            ep_next_outgoing_id: 0,
+            ep_incoming_window: 2048,
+            ep_outgoing_window: 2048,
+            peer_next_outgoing_id: 0,
+            peer_incoming_window: 100_000,
+            peer_outgoing_window: 100_000,
+            peer_channel: 3,
+            conn_buf: 2048,
+            sess_buf: 2048,
+        }
+    }
+}
+
+pub struct ClientRig {
+    pub conn: ConnectionHandle<()>,
+    pub sess: SessionHandle<()>,
+    pub peer: Peer,
+    /// channel the endpoint uses for its session
+    pub ep_ch: u16,
+    pub my_ch: u16,
+    pub ctl: PipeCtl,
+    pub cfg: RigCfg,
+}
+
+/// open + begin between a real client and the scripted peer
+pub async fn client_rig(cfg: RigCfg) -> Result<ClientRig, String> {
+    let (a, b, ctl) = simnet::pipe(cfg.pipe.clone());
+    let mut peer = Peer::new(b, cfg.choices.clone());
+    let open_fut = Connection::builder().container_id("verif-client").max_frame_size(cfg.ep_mfs).buffer_size(cfg.conn_buf.max(1)).open_with_stream(a);
+    let (conn, po) = tokio::join!(open_fut, peer.server_open(Some(cfg.peer_mfs), None, None));
+    let mut conn = conn.map_err(|e| format!("client open failed: {e:?}"))?;
+    po?;
+    let sb = Session::builder()
+        .next_outgoing_id(cfg.ep_next_outgoing_id)
+        .incoming_window(cfg.ep_incoming_window)
+        .outgoing_window(cfg.ep_outgoing_window)
+        .buffer_size(cfg.sess_buf.max(1));
+    let my_ch = cfg.peer_channel;
+    let (sess, pb) = tokio::join!(sb.begin(&mut conn), peer.accept_begin(my_ch, cfg.peer_next_outgoing_id, cfg.peer_incoming_window, cfg.peer_outgoing_window));
+    let sess = sess.map_err(|e| format!("client begin failed: {e:?}"))?;
+    let (ep_ch, _begin) = pb?;
+    Ok(ClientRig { conn, sess, peer, ep_ch, my_ch, ctl, cfg })
+}
+
+/// Drive an endpoint-initiated attach: `fut` is the endpoint's attach future; when the endpoint's
+/// attach frame arrives the peer answers with `reply(&attach)` followed by the frames in `then`.
+pub async fn answer_attach<T, E: std::fmt::Debug>(
+    peer: &mut Peer,
+    my_ch: u16,
+    fut: impl std::future::Future<Output = Result<T, E>>,
+    reply: impl FnOnce(&RFrame) -> RValue,
+    then: impl FnOnce(&RFrame) -> Vec<RValue>,
+) -> Result<(T, RFrame), String> {
+    let pa = async {
+        let a = peer.wait_for("attach").await?;
+        let body = reply(&a);
+        peer.send_frame(my_ch, &body, &[]).await?;
+        for f in then(&a) {
+            peer.send_frame(my_ch, &f, &[]).await?;
+        }
+        Ok::<RFrame, String>(a)
+    };
+    let (t, a) = tokio::join!(fut, pa);
+    let a = a?;
+    let t = t.map_err(|e| format!("endpoint attach failed: {e:?}"))?;
+    Ok((t, a))
+}
+
+pub fn as_uint(v: &RValue) -> Option<u32> {
+    match v {
+        RValue::Uint(x) => Some(*x),
+        _ => None,
+    }
+}
+pub fn as_bool(v: &RValue) -> Option<bool> {
+    match v {
+        RValue::Bool(x) => Some(*x),
+        _ => None,
+    }
+}
